@@ -46,6 +46,11 @@ def mutations(toks, rnd, per_kind):
         outs.append(" ".join(toks[:i] + toks[i + 1:]))                   # deletion
         outs.append(" ".join(toks[:i] + [rnd.choice(REPL)] + toks[i + 1:]))   # replacement
         outs.append(" ".join(toks[:i] + [rnd.choice(REPL)] + toks[i:]))       # insertion
+        # what the LEXER refuses, right behind a token the parser has just taken: a character that is no token at all, an
+        # unfinished string / escape / operator
+        bad = rnd.choice(["\u00a7", "\u00e4", "\\", "`", "#", "\"", "'", "\"\\q\"", "~", "0x", "1e", "\u2028"])
+        outs.append(" ".join(toks[:i + 1]) + " " + bad + " " + " ".join(toks[i + 1:]))
+        outs.append(" ".join(toks[:i + 1]) + bad + " ".join(toks[i + 1:]))
     return outs
 
 
@@ -92,6 +97,12 @@ def stress():
         out.append("fn main() { let v = %s; }\n" % e)
     out.append("import trigger minute from triggers;\nevent fn cb(e: int) { }\nlet a = { trigger cb at minute(1); 1 };\nfn main() { }\n")
     out.append("let a = { return 1; };\nlet b = { break; 2 };\nlet c = fn() -> int { 1 };\nfn main() { }\n")
+    for bad in ("\u00a7", "\u00e4", "\\", "`", "#"):
+        for stmt in ("continue", "break", "return", "return 1", "let", "let x", "let x =", "if", "if true", "else", "loop", "while", "for", "for i", "for i in", "match", "match 1",
+                     "try", "catch", "fn", "new", "x as", "import", "spawn", "trigger", "1 +", "x.", "x[", "f(", "!", "-", "?", "type", "pub", "event"):
+            out.append("fn main() { loop { %s %s } }" % (stmt, bad))
+            out.append("fn main() { loop { %s%s; } }\nfn g() { }\n" % (stmt, bad))
+            out.append("%s %s\nfn main() { }\n" % (stmt, bad))
     out.append("fn main() { let x = 9223372036854775808; }")
     out.append("fn main() { let x = 1" + "0" * 400 + ".5; }")
     return out
